@@ -27,7 +27,8 @@ Consumed(l) == TLCSet(2, l)
 
 \* names of the fields of exp whose logged value differs
 Mismatch(ev, exp) == {k \in DOMAIN exp : ev[k] # exp[k]}
-SetToSeq(S) == CHOOSE f \in [1..Cardinality(S) -> S] : \A i, j \in 1..Cardinality(S) : i # j => f[i] # f[j]
+RECURSIVE SetToSeq(_)
+SetToSeq(S) == IF S = {} THEN <<>> ELSE LET x == CHOOSE y \in S : TRUE IN <<x>> \o SetToSeq(S \ {x})
 
 WriteVerdict ==
    JsonSerialize(IOEnv.VERDICT, [consumed |-> TLCGet(2), total |-> NTrace,
